@@ -53,11 +53,11 @@ func init() {
 	cer := func(rule string, names []string, min int) ruleFunc {
 		return func(p *Prog, r *Report) { coreErrRule(p, r, rule, names, min) }
 	}
-	add("C12", "C12.errs (core.fastForward and checkFastForwardShape return an error on every failing edge of the checks they make — CheckBlock, frame.Hash, the shape checks, Reset, setHeadAndSeq: a refused response cannot look adopted to Node.fastForward, which restores the application only after a nil result; shared with C08.errs / C14.errs).", cer("C12.errs", []string{"fastForward", "checkFastForwardShape"}, 6))
-	add("C14", "C14.errs (see C12.errs).", cer("C14.errs", []string{"fastForward", "checkFastForwardShape"}, 6))
-	add("C08", "C08.errs (the shape validation of a fast-forward response reports every failed check to its caller; see C12.errs).", cer("C08.errs", []string{"fastForward", "checkFastForwardShape"}, 6))
-	add("C02", "C02.errs (core.commit and core.signBlock report the failures they test — a failed re-store of the block, a failed signature — instead of returning nil).", cer("C02.errs", []string{"commit", "signBlock"}, 5))
-	add("C05", "C05.errs (core.sync, signAndInsertSelfEvent, insertEventAndRunConsensus, recordHeads and setHeadAndSeq report the failures they test: pools are trimmed and heads recorded only after a reported success; shared with C11.coreerrs).", cer("C05.errs", []string{"sync", "signAndInsertSelfEvent", "insertEventAndRunConsensus", "recordHeads", "setHeadAndSeq"}, 5))
+	add("C12", "C12.errs (core.fastForward and checkFastForwardShape return an error on every failing edge of the checks they make — CheckBlock, frame.Hash, the shape checks, Reset, setHeadAndSeq: a refused response cannot look adopted to Node.fastForward, which restores the application only after a nil result; shared with C08.errs / C14.errs).", cer("C12.errs", []string{"fastForward", "checkFastForwardShape?"}, 4))
+	add("C14", "C14.errs (see C12.errs).", cer("C14.errs", []string{"fastForward", "checkFastForwardShape?"}, 4))
+	add("C08", "C08.errs (the shape validation of a fast-forward response reports every failed check to its caller; see C12.errs).", cer("C08.errs", []string{"fastForward", "checkFastForwardShape?"}, 4))
+	add("C02", "C02.errs (core.commit and core.signBlock report the failures they test — a failed re-store of the block, a failed signature — instead of returning nil).", cer("C02.errs", []string{"commit", "signBlock?"}, 4))
+	add("C05", "C05.errs (core.sync, signAndInsertSelfEvent, insertEventAndRunConsensus, recordHeads and setHeadAndSeq report the failures they test: pools are trimmed and heads recorded only after a reported success; shared with C11.coreerrs).", cer("C05.errs", []string{"sync", "signAndInsertSelfEvent?", "insertEventAndRunConsensus", "recordHeads?", "setHeadAndSeq"}, 5))
 	add("C11", "C11.coreerrs (see C05.errs: setHeadAndSeq reports a failed read of the creator's last event).", cer("C11.coreerrs", []string{"setHeadAndSeq", "insertEventAndRunConsensus"}, 2))
 	add("C10", "C10.follows (after a successful SetPeerSet the recorded set becomes core.validators on every path to a success return: the next accepted change is applied to the latest set).", as1(validatorsFollowRule, "C10.follows"))
 	rd := func(rule string) ruleFunc {
@@ -508,6 +508,11 @@ func absentIsAnAnswer(f *ssa.Function, callee *types.Func, c *ssa.Call) string {
 		sn := shortName(o) // reference name (renamed anchors resolved)
 		name = sn[strings.LastIndex(sn, ".")+1:]
 	}
+	if gProg != nil {
+		if orig, ok := gProg.forwardedFrom[f]; ok { // a reference function that became a front for this helper
+			name = orig[strings.LastIndex(orig, ".")+1:]
+		}
+	}
 	cn := shortName(callee)
 	cn = cn[strings.LastIndex(cn, ".")+1:]
 	switch name + "/" + cn {
@@ -820,7 +825,7 @@ func guardedOnlyByOwnLength(p *Prog, g *ssa.Function, lp *loopInfo, a ssa.Instru
 		okLen := false
 		if bo, isB := l.V.(*ssa.BinOp); isB {
 			for _, side := range []ssa.Value{bo.X, bo.Y} {
-				if s, isLen := isLenOf(side); isLen && (s == src || unwrap(s) == unwrap(src) || commonOrigin(s, src)) {
+				if s, isLen := isLenOf(side); isLen && (s == src || unwrap(s) == unwrap(src) || commonOrigin(s, src) || sameGetterCall(s, src)) {
 					okLen = true
 				}
 			}
@@ -1151,12 +1156,16 @@ func coreErrRule(p *Prog, r *Report, rule string, names []string, min int) {
 	r.Rule(rule, min, "the core functions whose nil result the other rules read as success return an error on every failing edge of the module calls they test")
 	var fs []*ssa.Function
 	for _, n := range names {
+		optional := strings.HasSuffix(n, "?")
+		n = strings.TrimSuffix(n, "?")
 		f := p.Func(NODE, "core", n)
 		if f == nil {
 			f = p.Func(NODE, "", n)
 		}
 		if f == nil {
-			r.Anchor(rule, "node."+n)
+			if !optional { // an optional helper may have been merged into its caller (which is in the list)
+				r.Anchor(rule, "node."+n)
+			}
 			continue
 		}
 		fs = append(fs, withAnon(f)...)
@@ -1462,4 +1471,30 @@ func perEventRule(p *Prog, r *Report, rule string) {
 		}
 	}
 	r.Check(ok, rule, "InsertEventAndRunConsensus:insert-then-four-passes-in-order", p.pos(iar.Pos()), fnName(iar), "insert, DivideRounds, DecideFame, DecideRoundReceived, ProcessDecidedRounds before every success return", why)
+}
+
+// sameGetterCall: two calls of the same parameterless method on the same receiver (x.Transactions() twice).
+func sameGetterCall(a, b ssa.Value) bool {
+	ca, _ := unwrap(a).(*ssa.Call)
+	cb, _ := unwrap(b).(*ssa.Call)
+	if ca == nil || cb == nil {
+		return false
+	}
+	fa, fb := calleeFunc(ca.Common()), calleeFunc(cb.Common())
+	if fa == nil || fa != fb || len(ca.Call.Args) != len(cb.Call.Args) {
+		return false
+	}
+	ra, rb := recvOf(ca), recvOf(cb)
+	if ra == nil || rb == nil {
+		return false
+	}
+	if !(ra == rb || unwrap(ra) == unwrap(rb) || sameOrigin(ra, rb) || commonOrigin(ra, rb)) {
+		return false
+	}
+	for i := range ca.Call.Args {
+		if ca.Call.Args[i] != cb.Call.Args[i] && ca.Call.Args[i] != ra && cb.Call.Args[i] != rb {
+			return false
+		}
+	}
+	return true
 }
